@@ -206,7 +206,7 @@ func (pm *pinModel) analyse(fn *ssa.Function) *pinResult {
 		}
 	}
 	acqSeen := map[ssa.Instruction]bool{}
-	lw := &LockWalk{W: w, Fn: fn, PathFn: pm.path}
+	lw := &LockWalk{W: w, Fn: fn, PathFn: pm.path, MaxStates: 1500000}
 	lw.Classify = func(c ssa.CallInstruction, st *LState) (lockOp, string) {
 		o := CalleeObj(c)
 		if ok, idExpr := isAcquire(c); ok {
@@ -457,6 +457,9 @@ func (pm *pinModel) analyse(fn *ssa.Function) *pinResult {
 	}
 	lw.Run()
 	res.truncated = lw.Truncated
+	if os.Getenv("SDB_DEBUG_STATES") != "" {
+		fmt.Fprintf(os.Stderr, "pinwalk %s states=%d\n", funcKey(fn), lw.States)
+	}
 	return res
 }
 
